@@ -10,6 +10,7 @@ import json, subprocess, sys, glob, os, re
 KF = '/verif/known_findings.json'
 # subject prefix -> (property, id) for fixes made by the main session
 FIXMAP = [
+ ("fix: a coroutine created by a coroutine lost its context", ("C11", "F-CTX2")),
  ("fix: the extension word of a large table constructor", ("C07", "F-CMP-EXTW")),
  ("fix: a function with more than 255 upvalues", ("C07", "F-CMP-UPV")),
  ("fix: a yield called for a fixed number of results", ("C06", "F-CO6")),
